@@ -114,49 +114,54 @@ func genSleepMS(rt *rapid.T) int64 {
 	}
 }
 
-func genC36(rt *rapid.T) any {
-	n := rapid.IntRange(1, 30).Draw(rt, "nops")
-	p := &C36Plan{}
-	for i := 0; i < n; i++ {
-		var op AuthOp
-		switch k := rapid.IntRange(0, 19).Draw(rt, "kind"); {
-		case k < 10:
-			op = AuthOp{Kind: "req"}
-			// three of four requests come from outside
-			if rapid.IntRange(0, 3).Draw(rt, "local") == 0 {
-				op.Origin = []int{0, 4, 8}[rapid.IntRange(0, 2).Draw(rt, "lo")]
-			} else {
-				op.Origin = rapid.IntRange(0, len(origins)-1).Draw(rt, "origin")
-			}
-			op.Path = rapid.IntRange(0, len(paths)-1).Draw(rt, "path")
-			switch c := rapid.IntRange(0, 15).Draw(rt, "cred"); {
-			case c < 1:
-				op.Cred = 0
-			case c < 5:
-				op.Cred = 1
-			case c < 9:
-				op.Cred = 2
-			case c < 11:
-				op.Cred = 3
-			default:
-				op.Cred = c - 11 + 3 // 3..7
-			}
-			op.Tok = rapid.IntRange(0, 5).Draw(rt, "tok")
-			if rapid.IntRange(0, 3).Draw(rt, "varfar") == 0 {
-				op.Var = rapid.IntRange(0, 70).Draw(rt, "var")
-			} else {
-				op.Var = rapid.IntRange(0, 7).Draw(rt, "varnear")
-			}
-		case k < 14:
-			op = AuthOp{Kind: "create", ID: rapid.IntRange(0, len(tokenIDs)-1).Draw(rt, "id")}
-		case k < 16:
-			op = AuthOp{Kind: "delete", Tok: rapid.IntRange(0, 5).Draw(rt, "tok")}
-		default:
-			op = AuthOp{Kind: "sleep", SleepMS: genSleepMS(rt)}
+func genAuthOp(rt *rapid.T) AuthOp {
+	var op AuthOp
+	switch k := rapid.IntRange(0, 19).Draw(rt, "kind"); {
+	case k < 10:
+		op = AuthOp{Kind: "req"}
+		// three of four requests come from outside
+		if rapid.IntRange(0, 3).Draw(rt, "local") == 3 {
+			op.Origin = []int{0, 4, 8}[rapid.IntRange(0, 2).Draw(rt, "lo")]
+		} else {
+			op.Origin = rapid.IntRange(0, len(origins)-1).Draw(rt, "origin")
 		}
-		p.Ops = append(p.Ops, op)
+		op.Path = rapid.IntRange(0, len(paths)-1).Draw(rt, "path")
+		switch c := rapid.IntRange(0, 15).Draw(rt, "cred"); {
+		case c < 1:
+			op.Cred = 0
+		case c < 5:
+			op.Cred = 1
+		case c < 9:
+			op.Cred = 2
+		case c < 11:
+			op.Cred = 3
+		default:
+			op.Cred = c - 11 + 3 // 3..7
+		}
+		op.Tok = rapid.IntRange(0, 5).Draw(rt, "tok")
+		if rapid.IntRange(0, 3).Draw(rt, "varfar") == 3 {
+			op.Var = rapid.IntRange(0, 70).Draw(rt, "var")
+		} else {
+			op.Var = rapid.IntRange(0, 7).Draw(rt, "varnear")
+		}
+	case k < 14:
+		op = AuthOp{Kind: "create", ID: rapid.IntRange(0, len(tokenIDs)-1).Draw(rt, "id")}
+	case k < 16:
+		op = AuthOp{Kind: "delete", Tok: rapid.IntRange(0, 5).Draw(rt, "tok")}
+	default:
+		op = AuthOp{Kind: "sleep", SleepMS: genSleepMS(rt)}
 	}
-	return p
+	return op
+}
+
+func genC36(rt *rapid.T) any {
+	// Three segments instead of one slice: rapid's slice lengths are skewed
+	// towards short, and element deletion (the useful shrink) works per slice.
+	g := rapid.Custom(genAuthOp)
+	ops := rapid.SliceOfN(g, 1, 14).Draw(rt, "ops")
+	ops = append(ops, rapid.SliceOfN(g, 0, 14).Draw(rt, "ops2")...)
+	ops = append(ops, rapid.SliceOfN(g, 0, 14).Draw(rt, "ops3")...)
+	return &C36Plan{Ops: ops}
 }
 
 // issuedToken is the reference's record of one Create that succeeded. The secret
@@ -362,10 +367,10 @@ func runC36(p *C36Plan, r *simkit.Run) {
 				r.Tracef("%d create %q -> refused (live duplicate in reference: %v)", i, id, liveDup)
 				continue
 			}
-			if !strings.HasPrefix(tok.Token, id+":") {
+			if !strings.HasPrefix(tok.Token, id+":") || len(tok.Token) == len(id)+1 {
 				// the documented token format is "id:secret"; without it no
 				// credentials can be derived
-				r.Violate("token-format", "", "op %d: Create(%q) returned a token string that does not start with %q", i, id, id+":")
+				r.Violate("token-format", "", "op %d: Create(%q) returned a token string that is not %q followed by a secret", i, id, id+":")
 				return
 			}
 			for _, tk := range ref.issued {
@@ -490,7 +495,7 @@ func SpecC36() simkit.Spec {
 		Gen:     genC36,
 		NewPlan: func() any { return &C36Plan{} },
 		Exec:    execC36,
-		Rule: "histories of 1-30 ops: create a token (10 short ids over a tiny alphabet so that prefixes of id+secret are other ids), delete by id (also already deleted / never issued), " +
+		Rule: "histories of 1-42 ops: create a token (10 short ids over a tiny alphabet so that prefixes of id+secret are other ids), delete by id (also already deleted / never issued), " +
 			"sleep (1 s .. 24 h, incl. 5 min -1 ms/-1 s/exact/+1 ms/+1 s), request (15 origins: 127/8, ::1, private, public, v4-mapped, just outside 127/8; 12 paths incl. the three local-only ones; " +
 			"credentials: none, exact, raw token string, id+secret re-split at any position, 8 wrong-secret variants, 4 unknown-id variants, swapped, 4 malformed headers) through the real authn.API with authentication enabled; " +
 			"non-trivial = at least one token issued, at least one non-loopback request, at least two credential kinds; distinct = hash of the op list and every admit/refuse outcome (secrets never enter the hash)",
